@@ -16,15 +16,71 @@ import (
 // engine skipconc: logical threads steered through the yield points of package skiplist on one
 // shared list (integer items, user-managed memory through the harness allocator).
 type skipConcEngine struct {
-	s     *skiplist.Skiplist
-	alloc *guardalloc.Alloc
-	ctl   *sched.Controller
-	bufs  []*skiplist.ActionBuffer
-	iters []map[string]*skiplist.Iterator
-	valid []map[string]bool
-	freeing bool  // mem=mmfree
-	freed   int64 // nodes freed by the barrier destructor (atomic)
-	keep  []unsafe.Pointer // items are referenced from off-heap nodes only: keep them reachable for Go's collector
+	s         *skiplist.Skiplist
+	alloc     *guardalloc.Alloc
+	ctl       *sched.Controller
+	bufs      []*skiplist.ActionBuffer
+	iters     []map[string]*skiplist.Iterator
+	valid     []map[string]bool
+	injecting bool // an injected operation is running (no steering)
+	inj       *injection
+	freeing   bool             // mem=mmfree
+	freed     int64            // nodes freed by the barrier destructor (atomic)
+	keep      []unsafe.Pointer // items are referenced from off-heap nodes only: keep them reachable for Go's collector
+}
+
+// injection: an operation of another thread to be run at the next late point (see `stepinj`)
+type injection struct {
+	thread int
+	toks   []string
+	fired  bool
+	result string
+}
+
+// simpleOp: ins <k> lvl=<l> | del <k> | delf <k> | look <k>
+func simpleOp(toks []string) bool {
+	switch toks[0] {
+	case "ins":
+		if len(toks) != 3 {
+			return false
+		}
+		_, ok := atoi(toks[1])
+		_, ok2 := natArg(toks, "lvl")
+		return ok && ok2
+	case "del", "delf", "look":
+		if len(toks) != 2 {
+			return false
+		}
+		_, ok := atoi(toks[1])
+		return ok
+	}
+	return false
+}
+
+// late is called at a late point by the goroutine that is running a segment
+func (e *skipConcEngine) late(point int, ours bool) {
+	inj := e.inj
+	if inj == nil || inj.fired || !ours || e.injecting {
+		return
+	}
+	inj.fired = true
+	f := e.buildOp(inj.thread, inj.toks)
+	if f == nil {
+		inj.result = "bad-op"
+		return
+	}
+	e.injecting = true
+	defer func() {
+		e.injecting = false
+		if r := recover(); r != nil {
+			inj.result = "panic " + strings.ReplaceAll(fmt.Sprint(r), "\n", " ")
+		}
+	}()
+	if v := f(); v == "" {
+		inj.result = "ret"
+	} else {
+		inj.result = "ret " + v
+	}
 }
 
 var freesRe = regexp.MustCompile(`frees=(-?\d+)`)
@@ -67,6 +123,169 @@ func (e *skipConcEngine) report(t *sched.Thread, ev sched.Event, err error) stri
 	return "at " + slPoint[ev.Point]
 }
 
+// buildOp turns `start <t> <op> …` (toks[2:] is the operation) into the call thread ti will make; nil = bad-op.
+func (e *skipConcEngine) buildOp(ti int, toks []string) func() string {
+	buf := e.bufs[ti]
+	s := e.s
+	var f func() string
+	cur := func(name string, it *skiplist.Iterator) string {
+		if !it.Valid() {
+			e.valid[ti][name] = false
+			return "end"
+		}
+		e.valid[ti][name] = true
+		return fmt.Sprint(ikey(it.Get()))
+	}
+	switch toks[2] {
+	case "ins":
+		k, ok := atoi(toks[3])
+		l, ok2 := natArg(toks, "lvl")
+		if !ok || !ok2 || len(toks) != 5 {
+			return nil
+		}
+		var itm unsafe.Pointer
+		if e.freeing {
+			// like a nitro item, the item lives in user-managed memory and is freed together with its node
+			itm = e.alloc.Malloc(8)
+			*(*int)(itm) = k
+		} else {
+			itm = skiplist.NewIntKeyItem(k)
+			e.keep = append(e.keep, itm)
+		}
+		f = func() string {
+			_, succ := s.Insert2(itm, skiplist.CompareInt, nil, buf, scripted(l), &s.Stats)
+			if !succ && e.freeing {
+				e.alloc.Free(itm)
+			}
+			return fmt.Sprint(succ)
+		}
+	case "del", "look", "delf":
+		k, ok := atoi(toks[3])
+		if !ok || len(toks) != 4 {
+			return nil
+		}
+		if toks[2] == "delf" {
+			// Delete as nitro does it: the same findPath + deleteNode as Delete (same yield points) under one
+			// barrier token, and the deleted node handed to the barrier for reclamation afterwards
+			f = func() string {
+				ab := s.GetAccesBarrier()
+				tok := ab.Acquire()
+				_, curr, found := s.Lookup(skiplist.NewIntKeyItem(k), skiplist.CompareInt, buf, &s.Stats)
+				done := false
+				if found {
+					done = s.DeleteNode2(curr, skiplist.CompareInt, buf, &s.Stats)
+				}
+				ab.Release(tok)
+				if done {
+					ab.FlushSession(unsafe.Pointer(curr))
+				}
+				return fmt.Sprint(done)
+			}
+		} else if toks[2] == "look" && e.freeing {
+			f = func() string {
+				ab := s.GetAccesBarrier()
+				tok := ab.Acquire()
+				_, _, found := s.Lookup(skiplist.NewIntKeyItem(k), skiplist.CompareInt, buf, &s.Stats)
+				ab.Release(tok)
+				return fmt.Sprint(found)
+			}
+		} else if toks[2] == "del" {
+			f = func() string {
+				return fmt.Sprint(s.Delete(skiplist.NewIntKeyItem(k), skiplist.CompareInt, buf, &s.Stats))
+			}
+		} else {
+			f = func() string {
+				_, _, found := s.Lookup(skiplist.NewIntKeyItem(k), skiplist.CompareInt, buf, &s.Stats)
+				return fmt.Sprint(found)
+			}
+		}
+	case "it_first", "it_seek":
+		name := toks[3]
+		it := e.iters[ti][name]
+		var k int
+		if toks[2] == "it_seek" {
+			var ok bool
+			if len(toks) != 5 {
+				return nil
+			}
+			if k, ok = atoi(toks[4]); !ok {
+				return nil
+			}
+		} else if len(toks) != 4 {
+			return nil
+		}
+		seek := toks[2] == "it_seek"
+		f = func() string {
+			if it == nil {
+				it = s.NewIterator(skiplist.CompareInt, s.MakeBuf())
+				e.iters[ti][name] = it
+			}
+			if seek {
+				it.Seek(skiplist.NewIntKeyItem(k))
+			} else {
+				it.SeekFirst()
+			}
+			return cur(name, it)
+		}
+	case "it_next":
+		name := toks[3]
+		it := e.iters[ti][name]
+		if it == nil || !e.valid[ti][name] || len(toks) != 4 {
+			return nil
+		}
+		f = func() string { it.Next(); return cur(name, it) }
+	case "it_refresh":
+		// the public Refresh(): new session, re-seek of the item under the cursor, old session released
+		name := toks[3]
+		it := e.iters[ti][name]
+		if it == nil || !e.valid[ti][name] || len(toks) != 4 {
+			return nil
+		}
+		f = func() string { it.Refresh(); return cur(name, it) }
+	case "it_pause", "it_resume":
+		// Pause gives the barrier session back, Resume takes a new one; the cursor is not touched
+		name := toks[3]
+		it := e.iters[ti][name]
+		if it == nil || len(toks) != 4 {
+			return nil
+		}
+		pause := toks[2] == "it_pause"
+		f = func() string {
+			if pause {
+				it.Pause()
+			} else {
+				it.Resume()
+			}
+			return ""
+		}
+	case "it_interval":
+		if len(toks) != 5 || e.iters[ti][toks[3]] == nil {
+			return nil
+		}
+		n, ok := atoi(toks[4])
+		if !ok || n < 1 {
+			return nil
+		}
+		it := e.iters[ti][toks[3]]
+		f = func() string { it.SetRefreshInterval(n); return "" }
+	case "it_close":
+		name := toks[3]
+		it := e.iters[ti][name]
+		if it == nil || len(toks) != 4 {
+			return nil
+		}
+		f = func() string {
+			it.Close()
+			delete(e.iters[ti], name)
+			delete(e.valid[ti], name)
+			return ""
+		}
+	default:
+		return nil
+	}
+	return f
+}
+
 func (e *skipConcEngine) step(toks []string) string {
 	if toks[0] == "threads" && (len(toks) == 2 || (len(toks) == 3 && (toks[2] == "mem=go" || toks[2] == "mem=mm" || toks[2] == "mem=mmfree"))) {
 		n, ok := atoi(toks[1])
@@ -98,8 +317,14 @@ func (e *skipConcEngine) step(toks []string) string {
 		}
 		e.ctl = sched.NewController()
 		sp := uintptr(unsafe.Pointer(e.s))
-		e.ctl.Steer = func(point int, obj uintptr) bool { return obj == sp && point >= 20 }
-		skiplist.VerifHook = func(point int, obj unsafe.Pointer) { e.ctl.Hook(point, uintptr(obj)) }
+		e.ctl.Steer = func(point int, obj uintptr) bool { return obj == sp && point >= 20 && point < 40 && !e.injecting }
+		skiplist.VerifHook = func(point int, obj unsafe.Pointer) {
+			if point >= 40 {
+				e.late(point, uintptr(obj) == sp)
+				return
+			}
+			e.ctl.Hook(point, uintptr(obj))
+		}
 		for i := 0; i < n; i++ {
 			e.ctl.AddThread()
 			e.bufs = append(e.bufs, e.s.MakeBuf())
@@ -122,137 +347,8 @@ func (e *skipConcEngine) step(toks []string) string {
 		if !ok || t == nil || t.Running {
 			return "bad-op"
 		}
-		buf := e.bufs[ti]
-		var f func() string
-		cur := func(name string, it *skiplist.Iterator) string {
-			if !it.Valid() {
-				e.valid[ti][name] = false
-				return "end"
-			}
-			e.valid[ti][name] = true
-			return fmt.Sprint(ikey(it.Get()))
-		}
-		switch toks[2] {
-		case "ins":
-			k, ok := atoi(toks[3])
-			l, ok2 := natArg(toks, "lvl")
-			if !ok || !ok2 || len(toks) != 5 {
-				return "bad-op"
-			}
-			var itm unsafe.Pointer
-			if e.freeing {
-				// like a nitro item, the item lives in user-managed memory and is freed together with its node
-				itm = e.alloc.Malloc(8)
-				*(*int)(itm) = k
-			} else {
-				itm = skiplist.NewIntKeyItem(k)
-				e.keep = append(e.keep, itm)
-			}
-			f = func() string {
-				_, succ := s.Insert2(itm, skiplist.CompareInt, nil, buf, scripted(l), &s.Stats)
-				if !succ && e.freeing {
-					e.alloc.Free(itm)
-				}
-				return fmt.Sprint(succ)
-			}
-		case "del", "look", "delf":
-			k, ok := atoi(toks[3])
-			if !ok || len(toks) != 4 {
-				return "bad-op"
-			}
-			if toks[2] == "delf" {
-				// Delete as nitro does it: the same findPath + deleteNode as Delete (same yield points) under one
-				// barrier token, and the deleted node handed to the barrier for reclamation afterwards
-				f = func() string {
-					ab := s.GetAccesBarrier()
-					tok := ab.Acquire()
-					_, curr, found := s.Lookup(skiplist.NewIntKeyItem(k), skiplist.CompareInt, buf, &s.Stats)
-					done := false
-					if found {
-						done = s.DeleteNode2(curr, skiplist.CompareInt, buf, &s.Stats)
-					}
-					ab.Release(tok)
-					if done {
-						ab.FlushSession(unsafe.Pointer(curr))
-					}
-					return fmt.Sprint(done)
-				}
-			} else if toks[2] == "look" && e.freeing {
-				f = func() string {
-					ab := s.GetAccesBarrier()
-					tok := ab.Acquire()
-					_, _, found := s.Lookup(skiplist.NewIntKeyItem(k), skiplist.CompareInt, buf, &s.Stats)
-					ab.Release(tok)
-					return fmt.Sprint(found)
-				}
-			} else if toks[2] == "del" {
-				f = func() string {
-					return fmt.Sprint(s.Delete(skiplist.NewIntKeyItem(k), skiplist.CompareInt, buf, &s.Stats))
-				}
-			} else {
-				f = func() string {
-					_, _, found := s.Lookup(skiplist.NewIntKeyItem(k), skiplist.CompareInt, buf, &s.Stats)
-					return fmt.Sprint(found)
-				}
-			}
-		case "it_first", "it_seek":
-			name := toks[3]
-			it := e.iters[ti][name]
-			var k int
-			if toks[2] == "it_seek" {
-				var ok bool
-				if len(toks) != 5 {
-					return "bad-op"
-				}
-				if k, ok = atoi(toks[4]); !ok {
-					return "bad-op"
-				}
-			} else if len(toks) != 4 {
-				return "bad-op"
-			}
-			seek := toks[2] == "it_seek"
-			f = func() string {
-				if it == nil {
-					it = s.NewIterator(skiplist.CompareInt, s.MakeBuf())
-					e.iters[ti][name] = it
-				}
-				if seek {
-					it.Seek(skiplist.NewIntKeyItem(k))
-				} else {
-					it.SeekFirst()
-				}
-				return cur(name, it)
-			}
-		case "it_next":
-			name := toks[3]
-			it := e.iters[ti][name]
-			if it == nil || !e.valid[ti][name] || len(toks) != 4 {
-				return "bad-op"
-			}
-			f = func() string { it.Next(); return cur(name, it) }
-		case "it_interval":
-			if len(toks) != 5 || e.iters[ti][toks[3]] == nil {
-				return "bad-op"
-			}
-			n, ok := atoi(toks[4])
-			if !ok || n < 1 {
-				return "bad-op"
-			}
-			it := e.iters[ti][toks[3]]
-			f = func() string { it.SetRefreshInterval(n); return "" }
-		case "it_close":
-			name := toks[3]
-			it := e.iters[ti][name]
-			if it == nil || len(toks) != 4 {
-				return "bad-op"
-			}
-			f = func() string {
-				it.Close()
-				delete(e.iters[ti], name)
-				delete(e.valid[ti], name)
-				return ""
-			}
-		default:
+		f := e.buildOp(ti, toks)
+		if f == nil {
 			return "bad-op"
 		}
 		ev, err := e.ctl.Start(t, f)
@@ -268,6 +364,29 @@ func (e *skipConcEngine) step(toks []string) string {
 		}
 		ev, err := e.ctl.Step(t)
 		return e.report(t, ev, err)
+	case "stepinj":
+		// stepinj <a> <b> <op…>: one segment of thread a; if that segment passes a LATE point (a point after a
+		// shared-memory step from which the rest of the segment is local to the goroutine: ITER_HELPED), thread b's
+		// whole operation runs right there, unsteered, before a goes on.  The model runs a's segment and then b's
+		// operation; the two orders agree exactly when the rest of a's segment is local.
+		if len(toks) < 5 {
+			return "bad-op"
+		}
+		ai, ok := atoi(toks[1])
+		bi, ok2 := atoi(toks[2])
+		a, b := e.ctl.Thread(ai), e.ctl.Thread(bi)
+		if !ok || !ok2 || a == nil || b == nil || ai == bi || !a.Running || !a.Parked || b.Running || !simpleOp(toks[3:]) {
+			return "bad-op"
+		}
+		e.inj = &injection{thread: bi, toks: append([]string{"start", toks[2]}, toks[3:]...)}
+		ev, err := e.ctl.Step(a)
+		inj := e.inj
+		e.inj = nil
+		out := e.report(a, ev, err)
+		if inj.fired {
+			return out + " | " + inj.result
+		}
+		return out + " | noinj"
 	case "walk":
 		for i := 0; i < e.ctl.NumThreads(); i++ {
 			if e.ctl.Thread(i).Running {
